@@ -53,6 +53,9 @@ impl Stats {
     /// one case evaluated; `nontrivial` by the property's rule; `repr` identifies the case (for distinctness and samples)
     pub fn case(&mut self, repr: &str, nontrivial: bool) {
         self.evaluations += 1;
+        // FV_TRACE_CASES=1: every case on stderr (to look at what a class generates)
+        static TRACE: std::sync::OnceLock<bool> = std::sync::OnceLock::new();
+        if *TRACE.get_or_init(|| std::env::var_os("FV_TRACE_CASES").is_some()) { eprintln!("CASE {}", repr); }
         if nontrivial { self.nontrivial.insert(fnv(repr)); }
         if self.samples.len() < 3 || (self.evaluations % 997 == 0 && self.samples.len() < 6) { self.samples.push(repr.chars().take(400).collect()); }
     }
